@@ -27,6 +27,9 @@ pub enum Expect {
     OneOf { alts: Vec<Expect> },
     /// a value all of whose floats are finite, or an error value, or a violation
     Finite,
+    /// a tuple (text, bool, text): both texts parse (with an independent JSON parser) to
+    /// `doc`, and the bool is true
+    JsonRoundTrip { doc: Value },
     /// a value of the shape of this static type, or an error value, or a violation
     Conforms {
         ty: crate::gstd::Ty,
@@ -72,6 +75,20 @@ pub fn satisfied(e: &Expect, o: &Out) -> bool {
             matches!(o, Out::CompileError { class, .. } if classes.is_empty() || classes.contains(class))
         }
         Expect::OneOf { alts } => alts.iter().any(|a| satisfied(a, o)),
+        Expect::JsonRoundTrip { doc } => match o {
+            Out::Value { dump: d } => {
+                let items = d["st"].as_array().cloned().unwrap_or_default();
+                items.len() == 3
+                    && items[1]["b"] == true
+                    && [0usize, 2].iter().all(|i| {
+                        items[*i]["s"]
+                            .as_str()
+                            .and_then(|t| serde_json::from_str::<Value>(t).ok())
+                            .map_or(false, |v| json_eq(&v, doc))
+                    })
+            }
+            _ => false,
+        },
         Expect::Finite => match o {
             Out::Value { dump: d } => non_finite(d).is_none(),
             Out::Error { .. } | Out::Violation { .. } => true,
@@ -101,5 +118,17 @@ pub fn brief(o: &Out) -> String {
         Out::Panic { msg, loc } => format!("panic {msg:?} at {loc}"),
         Out::CompileError { class, .. } => format!("compile error [{class}]"),
         other => other.class().to_string(),
+    }
+}
+
+/// equality of JSON documents with numbers compared as doubles
+pub fn json_eq(a: &Value, b: &Value) -> bool {
+    match (a, b) {
+        (Value::Number(x), Value::Number(y)) => x.as_f64() == y.as_f64(),
+        (Value::Array(x), Value::Array(y)) => x.len() == y.len() && x.iter().zip(y).all(|(p, q)| json_eq(p, q)),
+        (Value::Object(x), Value::Object(y)) => {
+            x.len() == y.len() && x.iter().all(|(k, v)| y.get(k).map_or(false, |w| json_eq(v, w)))
+        }
+        _ => a == b,
     }
 }
